@@ -181,6 +181,34 @@ theorem delslice_effect {s : Seq} (h : Reachable s) (a b c : Option Int) (sel : 
   obtain ⟨s', h1, h2, _, _⟩ := delSlice_accepts h.wf a b c sel hsel
   exact ⟨s', h1, h2⟩
 
+/-! ## The model is what the current source says (tie T for index maintenance and queries)
+
+`Gen.csProg_*` (`Generated/T14p.lean`) are the bodies of the methods of the CURRENT `ContentSequence`, mapped
+statement by statement into the language of `Model/SRSeqIR.lean` (which container, which operation, under which
+key, in which order, behind which checks); `run…` / `execCollect` / `execIndex` interpret that language.  The
+hand-written operations all theorems above speak about are exactly these interpretations — so a change to how the
+source maintains `_lut` or answers a query breaks one of the two theorems below (or the translation). -/
+
+theorem mutators_are_regenerated_programs (s : Seq) :
+    (∀ items r sr, construct items r sr = runInit items r sr) ∧
+    (∀ x, append s x = runAppend [x] s) ∧
+    (∀ xs, extend s xs = runExtend xs s) ∧
+    (∀ xs, step s (.iadd xs) = runIadd xs s) ∧
+    (∀ pos x, SRContentSeq.insert s pos x = runInsert pos [x] s) ∧
+    (∀ i x, setItem s i x = runSetitem (.int i) [x] s) ∧
+    (∀ a b c xs, setSlice s a b c xs = runSetitem (.slice a b c) xs s) ∧
+    (∀ i, delItem s i = runDelitem (.int i) s) ∧
+    (∀ a b c, delSlice s a b c = runDelitem (.slice a b c) s) :=
+  ⟨construct_is_program, append_is_program s, extend_is_program s, iadd_is_program s, insert_is_program s,
+   setItem_is_program s, setSlice_is_program s, delItem_is_program s, delSlice_is_program s⟩
+
+theorem queries_are_regenerated_programs (s : Seq) :
+    (∀ n, find s n = execCollect Gen.csProg_find s n) ∧
+    (getNodes s = execCollect Gen.csProg_get_nodes s 0) ∧
+    (∀ x, index s x = execIndex Gen.csProg_index s x) ∧
+    Gen.csContainsViaIndex = true :=
+  ⟨find_is_program s, getNodes_is_program s, index_is_program s, contains_is_program⟩
+
 /-! ## Non-vacuity: a concrete history with colliding names on a non-root SR sequence
 (construct [a0, b1], insert c0 in front, extend [d1, e0], assign position 1, delete a slice, reverse). -/
 
